@@ -139,10 +139,7 @@ Qed.
 Section Clean.
   Variable c : cfg.
 
-  Definition Gi (i : instr) := fixed c = true \/ no_gen_i i = true.
-  Definition Gc (p : code) := fixed c = true \/ no_gen_c p = true.
-  Definition Gs (l : codes) := fixed c = true \/ no_gen_s l = true.
-  Definition okjob (j : job) := match j with JPlain b => Gc b | JAsync _ => fixed c = true end.
+  Definition okjob (j : job) := True.
   Definition J (s : st) := Forall okjob (jq s).
 
   Lemma J_same : forall s s', jq s' = jq s -> J s -> J s'. Proof. unfold J. intros. rewrite H. assumption. Qed.
@@ -157,14 +154,14 @@ Section Clean.
   Lemma J_abrupt : forall s, J s -> J (abrupt_epilogue s).
   Proof. intros. unfold abrupt_epilogue. destruct (Nat.eqb _ _); auto using J_leave_abrupt. Qed.
 
-  Definition Pc (p : code) := Gc p -> forall s o s' a r b,
+  Definition Pc (p : code) := forall s o s' a r b,
     exec_c c p s = (o, s') -> at_base a r b s -> J s -> J s' /\ res o a r b s'.
-  Definition Pi (i : instr) := Gi i -> forall s o s' a r b,
+  Definition Pi (i : instr) := forall s o s' a r b,
     exec_i c i s = (o, s') -> at_base a r b s -> J s -> J s' /\ res o a r b s'.
-  Definition Ps (l : codes) := Gs l ->
+  Definition Ps (l : codes) :=
     (forall s o s' a r b, exec_seq c l s = (o, s') -> at_base a r b s -> J s -> J s' /\ res o a r b s') /\
     (forall k s o s' a r b, exec_cbs c k l s = (o, s') -> at_base a r b s -> J s -> J s' /\ res o a r b s') /\
-    (fixed c = true -> forall s o s' a r b, exec_gen c l s = (o, s') -> at_base a r b s -> J s -> J s' /\ res o a r b s').
+    (forall s o s' a r b, exec_gen c l s = (o, s') -> at_base a r b s -> J s -> J s' /\ res o a r b s').
 
   Lemma J_push_ctx : forall s, J s -> J (push_ctx s). Proof. auto. Qed.
   Lemma J_pop_ctx : forall s, J s -> J (pop_ctx s). Proof. auto. Qed.
@@ -276,67 +273,43 @@ Section Clean.
   Ltac go := repeat brk; fold_ep; simpl res in *; repeat (fwd; simpl res in * ); try finish.
   Ltac start s Hat := destruct Hat as (? & ? & ?); subst; pose proof (at_refl s).
 
-  Ltac mkG G :=
-    destruct G as [G | G]; [left; exact G | right; simpl in G;
-      repeat match goal with H : _ && _ = true |- _ => apply andb_true_iff in H; destruct H end; try assumption; try discriminate].
-
   Lemma clean_all : (forall i, Pi i) /\ (forall p, Pc p) /\ (forall l, Ps l).
   Proof.
     apply tree_mutind; unfold Pi, Pc, Ps.
-    - (* IEv *) intros e G s o s' a r b H Hat Hj. simpl in H. go.
-    - (* IProbe *) intros G s o s' a r b H Hat Hj. simpl in H. go.
-    - (* IThrow *) intros G s o s' a r b H Hat Hj. simpl in H. inversion H; subst. split; [assumption | apply at_above; assumption].
-    - (* ITry *) intros bd IHb hc cb IHc hf fb IHf G s o s' a r b H Hat Hj.
-      assert (Gb : Gc bd) by (mkG G). assert (Gcb : Gc cb) by (mkG G). assert (Gfb : Gc fb) by (mkG G).
-      specialize (IHb Gb). specialize (IHc Gcb). specialize (IHf Gfb).
-      start s Hat. simpl in H. go.
-    - (* ICall *) intros bd IHb G s o s' a r b H Hat Hj.
-      assert (Gb : Gc bd) by (mkG G). specialize (IHb Gb).
-      start s Hat. simpl in H. go.
-    - (* INat *) intros k l IHl G s o s' a r b H Hat Hj.
-      assert (Gl : Gs l) by (mkG G). destruct (IHl Gl) as [_ [IH _]].
-      start s Hat. simpl in H. destruct k; go.
-    - (* IForOf *) intros ret l IHl G s o s' a r b H Hat Hj.
-      assert (Gl : Gs l) by (mkG G). destruct (IHl Gl) as [IH _].
-      start s Hat. simpl in H. go.
-    - (* IGen *) intros l IHl G s o s' a r b H Hat Hj.
-      destruct G as [Gf | Gn]; [| simpl in Gn; discriminate].
-      destruct (IHl (or_introl Gf)) as [_ [_ IH]]. simpl in H. eapply (IH Gf); eauto.
-    - (* IAsync *) intros pre IHp post _ G s o s' a r b H Hat Hj.
-      destruct G as [Gf | Gn]; [| simpl in Gn; discriminate].
-      specialize (IHp (or_introl Gf)). assert (okjob (JAsync post)) by exact Gf.
-      start s Hat. simpl in H. rewrite Gf in H. go.
-    - (* IJob *) intros bd _ G s o s' a r b H Hat Hj.
-      assert (okjob (JPlain bd)) by (simpl; mkG G). simpl in H. go.
-    - (* CNil *) intros G s o s' a r b H Hat Hj. simpl in H. go.
-    - (* CCons *) intros i IHi p IHp G s o s' a r b H Hat Hj.
-      assert (G1 : Gi i) by (mkG G). assert (G2 : Gc p) by (mkG G). specialize (IHi G1). specialize (IHp G2).
-      simpl in H. go.
-    - (* SNil *) intros G. split; [| split]; intros; simpl in *; go.
-    - (* SCons *) intros bd IHb l IHl G.
-      assert (G1 : Gc bd) by (mkG G). assert (G2 : Gs l) by (mkG G). specialize (IHb G1).
-      destruct (IHl G2) as [IH1 [IH2 IH3]]. split; [| split].
+    - (* IEv *) intros e s o s' a r b H Hat Hj. simpl in H. go.
+    - (* IProbe *) intros s o s' a r b H Hat Hj. simpl in H. go.
+    - (* IThrow *) intros s o s' a r b H Hat Hj. simpl in H. inversion H; subst. split; [assumption | apply at_above; assumption].
+    - (* ITry *) intros bd IHb hc cb IHc hf fb IHf s o s' a r b H Hat Hj. start s Hat. simpl in H. go.
+    - (* ICall *) intros bd IHb s o s' a r b H Hat Hj. start s Hat. simpl in H. go.
+    - (* INat *) intros k l [_ [IH _]] s o s' a r b H Hat Hj. start s Hat. simpl in H. destruct k; go.
+    - (* IForOf *) intros ret l [IH _] s o s' a r b H Hat Hj. start s Hat. simpl in H. go.
+    - (* IGen *) intros l [_ [_ IH]] s o s' a r b H Hat Hj. simpl in H. eapply IH; eauto.
+    - (* IAsync *) intros pre IHp post _ s o s' a r b H Hat Hj.
+      assert (okjob (JAsync post)) by exact I. start s Hat. simpl in H. go.
+    - (* IJob *) intros bd _ s o s' a r b H Hat Hj. assert (okjob (JPlain bd)) by exact I. simpl in H. go.
+    - (* CNil *) intros s o s' a r b H Hat Hj. simpl in H. go.
+    - (* CCons *) intros i IHi p IHp s o s' a r b H Hat Hj. simpl in H. go.
+    - (* SNil *) split; [| split]; intros; simpl in *; go.
+    - (* SCons *) intros bd IHb l [IH1 [IH2 IH3]]. split; [| split].
       + intros s o s' a r b H Hat Hj. start s Hat. simpl in H. go.
       + intros k s o s' a r b H Hat Hj. start s Hat. simpl in H. destruct k; go.
-      + intros Gf s o s' a r b H Hat Hj. specialize (IH3 Gf). start s Hat. simpl in H. rewrite Gf in H. go.
+      + intros s o s' a r b H Hat Hj. start s Hat. simpl in H. go.
   Qed.
 
   Let IHc := proj1 (proj2 clean_all).
 
   Lemma run_job_ok : forall j s o s' a r b,
-    run_job c j s = (o, s') -> okjob j -> at_base a r b s -> J s -> J s' /\ at_base a r b s'.
+    run_job c j s = (o, s') -> at_base a r b s -> J s -> J s' /\ at_base a r b s'.
   Proof.
-    intros j s o s' a r b H Ho Hat Hj. destruct j as [bd | bd]; simpl in Ho.
-    - pose proof (IHc bd Ho) as IH. start s Hat. simpl in H. go.
-    - pose proof (IHc bd (or_introl Ho)) as IH. start s Hat. simpl in H. rewrite Ho in H. go.
+    intros j s o s' a r b H Hat Hj. destruct j as [bd | bd]; pose proof (IHc bd) as IH; unfold Pc in IH; start s Hat; simpl in H; go.
   Qed.
 
   Lemma run_jobs_ok : forall js s o s' a r b,
-    run_jobs c js s = (o, s') -> Forall okjob js -> at_base a r b s -> J s -> J s' /\ at_base a r b s'.
+    run_jobs c js s = (o, s') -> at_base a r b s -> J s -> J s' /\ at_base a r b s'.
   Proof.
-    induction js as [| j js IH]; intros s o s' a r b H Hf Hat Hj; simpl in H.
+    induction js as [| j js IH]; intros s o s' a r b H Hat Hj; simpl in H.
     - inversion H; subst. auto.
-    - inversion Hf; subst. destruct (run_job c j s) as [o1 s1] eqn:E.
+    - destruct (run_job c j s) as [o1 s1] eqn:E.
       eapply run_job_ok in E; eauto. destruct E as [? ?].
       destruct o1; try (inversion H; subst; auto; fail). eapply IH; eauto.
   Qed.
@@ -349,7 +322,7 @@ Section Clean.
     - cbn [leave] in H. destruct (jq s) as [| j q] eqn:Q.
       + inversion H; subst. auto.
       + remember (j :: q) as js. destruct (run_jobs c js (set_jq [] s)) as [o1 s1] eqn:E.
-        eapply run_jobs_ok in E; [ | unfold J in Hj; rewrite Q in Hj; exact Hj | apply at_set_jq; eassumption | apply J_set_jq_nil ].
+        eapply run_jobs_ok in E; [ | apply at_set_jq; eassumption | apply J_set_jq_nil ].
         destruct E as [? ?]. destruct o1; try (inversion H; subst; auto; fail). eapply IH; eauto.
   Qed.
 
@@ -363,41 +336,34 @@ Section Clean.
     | E : leave c _ _ = (_, _) |- _ => eapply leave_ok in E; [ | sAt | sJ ]; destruct E as [? ?]
     end.
 
+  Lemma J_any : forall s, J s.
+  Proof. intros. unfold J. apply Forall_forall. intros. exact I. Qed.
+
   Lemma run_top_clean_gen : forall fuel e p s o s' a r b,
-    Gc p -> at_base a r b s -> J s -> a = 0 ->
+    at_base a r b s -> a = 0 ->
     run_top c fuel e p s = (o, s') ->
     at_base a r b s' /\ (forall t, o = OIntr t -> r = [] -> b = [] -> is_idle s' = true).
   Proof.
-    intros fuel e p s o s' a r b G Hat Hj Ha H. pose proof (IHc p G) as IH.
+    intros fuel e p s o s' a r b Hat Ha H. pose proof (IHc p) as IH. unfold Pc in IH. pose proof (J_any s) as Hj.
     start s Hat.
     destruct e; simpl in H;
       repeat brk; fold_ep; repeat (first [fwd | fwdL]; simpl res in * );
       (split; [ sAt | let t := fresh in let Et := fresh in intros t Et ? ?;
                       first [ discriminate Et | eapply idle_epilogue; [ sAt | assumption | assumption | assumption ] ] ]).
   Qed.
-
-  Lemma run_top_clean : forall fuel e p s o s',
-    Gc p -> at_base 0 [] [] s -> J s ->
-    run_top c fuel e p s = (o, s') ->
-    at_base 0 [] [] s' /\ (forall t, o = OIntr t -> is_idle s' = true).
-  Proof.
-    intros. destruct (run_top_clean_gen fuel e p s o s' 0 [] [] H H0 H1 eq_refl H2) as [A B].
-    split; [exact A | intros t E; eapply B; eauto].
-  Qed.
 End Clean.
 
-(* interrupt_clean: for every program outside the F16 region (or any program, in the specification), every
-   entry point, every interrupt position / firing time / ClearInterrupt variant, from any idle state:
-   the three stacks are back at their idle values whatever the outcome, and if the call returned the
+(* interrupt_clean: for EVERY program, every entry point, every interrupt position / firing time /
+   ClearInterrupt variant, from any state whose three stacks are idle (whatever is queued):
+   the stacks are back at their idle values whatever the outcome, and if the call returned the
    InterruptedError the job queue is empty and the flag is cleared. *)
 Lemma interrupt_clean_from : forall c fuel e p s o s',
-  (fixed c = true \/ no_gen_c p = true) ->
-  cs s = 0 -> ts s = [] -> its s = [] -> jq s = [] ->
+  cs s = 0 -> ts s = [] -> its s = [] ->
   run_top c fuel e p s = (o, s') ->
   cs s' = 0 /\ ts s' = [] /\ its s' = [] /\ (forall t, o = OIntr t -> is_idle s' = true).
 Proof.
-  intros c fuel e p s o s' G A B C D H.
-  destruct (run_top_clean c fuel e p s o s') as [(X & Y & Z) W]; auto.
+  intros c fuel e p s o s' A B C H.
+  destruct (run_top_clean_gen c fuel e p s o s' 0 [] []) as [(X & Y & Z) W]; auto.
   - repeat split; assumption.
-  - unfold J. rewrite D. constructor.
+  - repeat split; try assumption. intros t E. eapply W; eauto.
 Qed.
